@@ -298,6 +298,13 @@ def _run_cell(prop, cfg, timeout_s, tier, replay=None):
         pass
     try:
         with contextlib.redirect_stdout(sink):
+            try:
+                from props.common import warmup_other_dimension
+                warmup_other_dimension(cfg)
+            except CellTimeout:
+                raise
+            except Exception:  # noqa: BLE001
+                pass
             mod.run_cell(cfg, cx)
         if replay is not None and str(replay[0]).startswith("raises:") and cx.replay_outcome is None:
             cx.replay_outcome = (False, "the real code did not raise")
